@@ -26,31 +26,63 @@ THEOREMS = [
     (M, "C16.serialize_reparses_ini_new_partial", "the same for a new localization (empty old file): section and exactly the reference keys that have a new value"),
     (M, "C16.serialized_shape", "for ALL entry lists: if in the template dict and in the sanitized old dict every non-whitespace key is directly followed "
         "by a Whitespace object, the same holds for the serialized entry list (no entity is glued to a neighbouring entry)"),
+    # ---- round 4
+    (M, "C16.wrap_verbatim", "Entity.wrap writes the raw value verbatim between the reference entity's prefix and suffix (no escaping, no trimming), same key"),
+    (M, "C16.no_adjacent_whitespace", "for ALL entry lists: prune_placeholders leaves no two adjacent Whitespace entries"),
+    (M, "C16.leading_blank_characterised", "for ALL entry lists: the output starts with a Whitespace entry iff the first pair of the key diff (template vs sanitized old file) "
+        "that is not a placeholder after the new values are filled in is white space; the two merge_two reduces and prune_placeholders never change that"),
+    (M, "C16.serialized_text_partial", "TEXT of the output for two files printed record by record in any syntax pre(key)+value+post+newline (properties, dtd, inc), "
+        "distinct keys: an optional leading newline followed by exactly the printed expected records, in reference order"),
+    (M, "C16.serialize_reparses_dtd_partial", "RE-PARSE (.dtd, `<!ENTITY k \"v\">` per record, values without `\"` and `&`, distinct keys): DTDParser.walk parses the output "
+        "without junk into exactly the expected records — also when it starts with a blank line"),
+    (M, "C16.serialize_reparses_inc_partial", "RE-PARSE (.inc, `#define k v` with non-empty values, distinct keys; first reference record emitted; old file empty or starting "
+        "with a reference key): DefinesParser.walk parses the output without junk into exactly the expected records"),
+    (M, "C16.no_leading_blank_partial", "printed files: no leading blank line when the first reference record is emitted and the old file is empty or starts with a reference key"),
+    (M, "C16.leading_blank_partial", "printed files: the output DOES start with a blank line whenever the first reference record is not emitted (finding C16-inc-leading-blank as a theorem)"),
+    (M, "C16.serialize_idempotent_text_properties_partial", "TEXT-level idempotence (.properties printed class): serialize(ref, parse(serialize(ref, old, new)), {}) returns the same text"),
+    (M, "C16.serialize_idempotent_text_dtd_partial", "TEXT-level idempotence (.dtd printed class)"),
+    (M, "C16.serialize_idempotent_text_inc_partial", "TEXT-level idempotence (.inc printed class, no leading blank line)"),
+    (M, "C16.sticky_from_reference", "for ALL entry lists: every StickyEntry of the output is an entry of the REFERENCE; the old document's sticky entries never survive"),
+    (M, "C16.sticky_kept", "a sticky reference entry is in the output whenever every old entry under its key is sticky too and no reference Entity has that key"),
+    (M, "C16.fluent_wrap_spec", "FluentEntity.wrap: text = serialize_comment(reference comment) + raw value (verbatim), key of the reference entity"),
+    (M, "C16.fluent_comment_roundtrip", "for every comment content: what serialize_comment prints reads back to that content"),
+    (M, "C16.fluent_comment_lines", "every line serialize_comment prints starts with `#`"),
+    (M, "C16.fluent_walk_texts", "the entry-level Fluent walk of the serializer model yields the texts of the C01 model of FluentParser.walk"),
+    (M, "C16.android_wrap_text", "AndroidEntity.wrap on <string>TEXT</string>: the whole text is replaced by the escaped new value"),
+    (M, "C16.android_wrap_cdata", "AndroidEntity.wrap on a single CDATA child: data replaced verbatim; a value containing `]]>` raises ValueError"),
+    (M, "C16.android_wrap_empty_raises", "AndroidEntity.wrap on a <string> without child nodes raises (finding C16-android-empty-reference-string)"),
+    (M, "C16.android_escape_roundtrip", "minidom text escaping (& < \" >) is reversible for all raw values"),
+    (M, "C16.android_escape_safe", "the escaped text contains none of < > \""),
 ]
 PARTIAL = [
-    "'parses without junk' (re-parse of the produced text) is a THEOREM only for .properties and .ini on the class of printed safe records "
-    "(serialize_reparses_properties_partial: reference and old file are `key=value\\n` per record with safe keys/values and distinct keys per file, "
-    "new values for reference keys are safe; no comments, blank lines, junk, escapes, missing final newline; serialize_reparses_ini_partial: the same "
-    "under one `[section]` header shared by reference and old file, no key equal to the section name); for every other layout and the other "
-    "four formats it is checked by the oracle with the real parsers and by the end-to-end correspondence; it is false for the inputs of the findings "
-    "C16-inc-leading-blank, C16-inc-blank-lines, C16-dtd-quote-conflict, C16-old-eof-comment-glued, C16-inc-reference-without-value "
-    "(negation witness for the old-file hypothesis = C16-old-eof-comment-glued, evaluated in Props/C16.lean; witnesses for distinct keys and safe values there too)",
-    "Fluent and Android `wrap` (fluent.syntax serialize_comment, minidom cloneNode/toxml) are external: oracle only",
-    "idempotent_entities is at entry level: that re-parsing the text gives the same entries back is by correspondence/oracle",
+    "'parses without junk' (re-parse of the produced text) is a THEOREM for .properties, .ini, .dtd and .inc on the class of printed safe records "
+    "(one record per line in the format's plain syntax, distinct keys per file, safe new values; no comments, blank lines, junk, escapes, missing final "
+    "newline; .ini: one shared `[section]`; .dtd: `\"`-quoted, values without `\"`/`&`; .inc: non-empty values, first reference record emitted and old file "
+    "empty or starting with a reference key — each extra hypothesis is one of the known findings, with a negation witness in Props/C16.lean); "
+    "for every other layout and for Fluent / Android it is checked by the oracle with the real parsers and by the end-to-end correspondence",
+    "text-level idempotence is a THEOREM for the .properties, .dtd and .inc printed classes; elsewhere the oracle checks entity-level idempotence on the real code",
+    "Fluent and Android `wrap` are modelled over a PRINTER CONTRACT of the external libraries (fluent.syntax serialize_comment; minidom Element.toxml for "
+    "Text/CDATA/Comment/PI/other children), validated by the c16.fcomment / c16.awrap streams; FluentParser.walk takes the body of fluent.syntax as input, "
+    "AndroidParser.walk is not modelled (its entries are inputs of c16.android)",
     "theorems about keys/values assume new_data is a dict (duplicate-free keys; negation witness in Props/C16.lean); wrap_spec assumes the value span "
     "lies inside the entity span (negation witness: .inc `#define k` stores (-1,-1); probed on the real code = finding C16-inc-reference-without-value)",
+    "sticky_kept needs: no old non-sticky entry and no reference Entity under the sticky key (witnesses in Props/C16.lean; probe android.sticky_key_clash on the real code)",
 ]
 LEVEL_TEXT = ("Lean 4 theorems over an executable transliteration of serializer.serialize / sanitize_old / placeholder / prune_placeholders, "
-              "Entity.wrap and merge.merge_resources(keep_newest=False) (on top of the proved closed form of AddRemove): for ALL entry lists the "
-              "entities of the output are exactly the reference keys with a new or kept old value, in reference order, with the right values, "
-              "nothing foreign, idempotent; the model (including the regex parsers' walk) is tied to the Python by exhaustive small + random "
-              "differential runs on properties/dtd/ini/inc, and an independent oracle re-parses the real output for all six formats")
-LEVEL_NOTE = ("trusted: Lean kernel; hand-written model validated by correspondence; re-parse claims ('parses without junk') are proved for .properties / .ini on "
-              "printed safe records only, oracle/correspondence elsewhere; "
-              "Fluent/Android wrap are external libraries (oracle only); theorems assume new_data is a dict (duplicate-free keys)")
+              "Entity.wrap, FluentEntity.wrap, AndroidEntity.wrap and merge.merge_resources(keep_newest=False) (on top of the proved closed form of AddRemove): "
+              "for ALL entry lists the entities of the output are exactly the reference keys with a new or kept old value, in reference order, with the right "
+              "values, nothing foreign, idempotent, sticky entries from the reference only, no adjacent white space, leading blank line characterised; for printed "
+              "files of properties/ini/dtd/inc the produced TEXT is proved to re-parse junk-free into the expected records and (properties, dtd) to be a fixed point; "
+              "the model is tied to the Python by exhaustive small + random differential runs end to end on all six formats (regex formats through the parser "
+              "models, Fluent through the body of fluent.syntax, Android through the entries of the real walk), and an independent oracle re-parses the real output")
+LEVEL_NOTE = ("trusted: Lean kernel; hand-written model validated by correspondence; re-parse and text-idempotence claims are proved on printed safe records only, "
+              "oracle/correspondence elsewhere; fluent.syntax / minidom enter through printer contracts that are validated differentially; theorems assume "
+              "new_data is a dict (duplicate-free keys)")
 TECHNIQUE = "Lean 4 proof over executable model + differential correspondence + re-parse oracle on the implementation"
 TRUSTED = [
     "hand-written model CLModel/Serialize/Serializer.lean of serializer.py, merge.py (merge_resources/merge_two/get_older_entity/prune), base.Entity.wrap (tied by the `ser`/`ser.ents` correspondence)",
+    "CLModel/Serialize/Fluent.lean (FluentEntity.wrap, serialize_comment contract; tied by c16.ftl / c16.fcomment) and CLModel/Serialize/Android.lean "
+    "(AndroidEntity.wrap, minidom toxml contract; tied by c16.android / c16.awrap)",
     "parser models CLModel/Parser/{Base,Formats}.lean (C01) used to obtain entries for the end-to-end `ser` correspondence",
     "Python dict/OrderedDict modelled as association list; object identity of Whitespace keys modelled as (resource, index)",
 ]
@@ -58,9 +90,12 @@ ASSUMPTIONS = [
     "reference files are well-formed (no junk) with distinct keys; old files may contain junk, obsolete keys and lack the final newline",
     "raw values are entity.unwrap() of a parsed one-entity file of the same format",
     "Fluent values are compared without their comments (wrap re-creates the reference comment)",
+    "junk regions of generated old files are marked by construction with private characters (all Unicode white-space outside [ \\t\\r\\n], Ж, Џ) that occur nowhere else",
 ]
 
+AX = '<?xml version="1.0" encoding="utf-8"?>\n<resources%s>\n%s</resources>\n'
 EN_RE = re.compile(r"EN(k|obs|unk)\d")
+JUNKCHAR = "characters of a junk region of the old file in the output:"
 
 
 # ------------------------------------------------------------------ oracle
@@ -73,14 +108,20 @@ def oracle(case, r):
         return ["serialize raised %s: %s" % (r["exc"], r.get("msg"))], None
     v = r["r"]
     fmt = case["fmt"]
+    # by construction (c16gen, round 4): the private characters occur in junk regions of the OLD file only
+    pfails = []
+    leaked = sorted(set(c for c in v["out"] if c in G.PRIVATE))
+    if leaked and not any(c in G.PRIVATE for c in case["ref"]) \
+            and not any(c in G.PRIVATE for _, val in case["new"] if val for c in val):
+        pfails.append(JUNKCHAR + " " + ",".join("U+%04X" % ord(c) for c in leaked))
     ref_e = [(k, val) for kind, k, val in v["ref"] if kind == "E"]
     old_e = [(k, val) for kind, k, val in v["old"] if kind == "E"]
     if any(kind == "J" for kind, _, _ in v["ref"]):
-        return [], None                      # reference with junk: outside the judged domain
+        return pfails, None                  # reference with junk: outside the judged domain
     rkeys = [k for k, _ in ref_e]
     okeys = [k for k, _ in old_e]
     if len(set(rkeys)) != len(rkeys) or len(set(okeys)) != len(okeys):
-        return [], None                      # duplicate keys: "the" old value is not defined by the property
+        return pfails, None                  # duplicate keys: "the" old value is not defined by the property
     new = {}
     for k, val in case["new"]:
         new[k] = val
@@ -92,7 +133,7 @@ def oracle(case, r):
             expected.append([k, newval[k]])
         elif k in oldmap and not (k in new and new[k] is None):
             expected.append([k, oldmap[k]])
-    fails = []
+    fails = list(pfails)
     parsed = v["parsed"]
     if any(kind == "J" for kind, _, _ in parsed):
         fails.append("output does not parse without junk")
@@ -116,6 +157,8 @@ def oracle(case, r):
         if k not in ekeys and re.search(r"OLD%s\b" % re.escape(k), out):
             fails.append("obsolete or removed entity %s in the output" % k)
             break
+    if fmt == "android" and v.get("ref_root") is not None and v.get("out_root") != v["ref_root"]:
+        fails.append("root element attributes %r, the reference document has %r" % (v.get("out_root"), v["ref_root"]))
     again = [[k, val] for kind, k, val in v["again"] if kind == "E"]
     if again != ents:
         fails.append("serializing the output again yields different entities")
@@ -127,7 +170,7 @@ def dtd_quote_of(ref_text, key):
     return m.group(1) if m else None
 
 
-def finding_of(case, r, fails):
+def finding_of(case, r, fails, expected=None, repaired_ok=False):
     """root-cause predicates of genuine defects (see NOTES-C16.md); None = unexplained violation"""
     fmt = case["fmt"]
     if "r" not in r:
@@ -137,6 +180,8 @@ def finding_of(case, r, fails):
         return None
     v = r["r"]
     out = v["out"]
+    if any(f.startswith(JUNKCHAR) for f in fails):
+        return None                          # text of an old junk region in the output is never a known finding
     new = [(k, val) for k, val in case["new"] if val is not None]
     if fmt == "inc" and any(k in v["ref_noval"] for k, _ in new):
         # Entity.wrap with val_span == (-1, -1) (`#define key` without a value in the reference)
@@ -147,6 +192,12 @@ def finding_of(case, r, fails):
     if case["old"] and not case["old"].endswith("\n") and v["old_last"] in ("C", "O"):
         # the old file ends in a comment / instruction without a newline: the next entry is glued to it
         return "C16-old-eof-comment-glued"
+    if fmt == "android" and any(k in v.get("ref_markup", []) for k, _ in new) \
+            and all(f.startswith(("reference (English)", "value of")) for f in fails):
+        # AndroidEntity.wrap replaces the data of ONE child node of the cloned <string>: inline markup / further text stays
+        return "C16-android-reference-markup"
+    if repaired_ok:
+        return "C16-old-junk-blanks-kept"
     if fmt == "inc":
         # F10: the pruned entry list starts with a Whitespace entry -> leading blank line is Junk for DefinesParser
         junk = [val for kind, _, val in v["parsed"] if kind == "J"]
@@ -162,6 +213,57 @@ def finding_of(case, r, fails):
     return None
 
 
+def blanks_repair(fmt, case, v, fails):
+    """root cause of C16-old-junk-blanks-kept: a Junk entry of the old file has a neighbouring Whitespace entry that carries
+    inline white-space of the junk's OWN line (the junk line is indented: the Whitespace before it does not end in a newline;
+    or, Fluent, blanks split off the junk line's end: the Whitespace after it does not start with a newline).  sanitize_old
+    drops the Junk and keeps the Whitespace, so these blanks now indent the NEXT line (ini: a `^[;#]` comment is no longer at
+    the line start; Fluent: an indented message/comment) or trail the PREVIOUS one (Fluent: a tab/CR glued to the value, a
+    tab-only line, two lines glued by a lone CR).
+    Returns the old text with exactly these blanks removed (the junk itself stays), or None when the cause is absent.  The
+    violation is attributed to the finding only if the implementation PASSES the whole oracle on the repaired input."""
+    if fmt not in ("ini", "ftl"):
+        return None
+    if any(f.startswith(("reference", "obsolete", "placeholder", "junk of", JUNKCHAR)) for f in fails):
+        return None
+    old = case["old"]
+    cuts = []
+    for before, after in v.get("old_junk_ws", []):
+        if before is not None and not before[0].endswith("\n"):
+            text, start = before
+            keep = text.rfind("\n") + 1
+            cuts.append((start + keep, start + len(text)))
+        if fmt == "ftl" and after is not None and not after[0].startswith("\n"):
+            text, start = after
+            n = text.find("\n")
+            cuts.append((start, start + (n if n >= 0 else len(text))))
+    if not cuts:
+        return None
+    for a, b in sorted(set(cuts), reverse=True):
+        old = old[:a] + old[b:]
+    return old
+
+
+def repaired_pass(cases, res, judged):
+    """counterfactual of C16-old-junk-blanks-kept: indices of failing cases that pass the whole oracle once the blanks of the
+    junk's own line are removed from the old file"""
+    cand = []
+    for i, (c, r) in enumerate(zip(cases, res)):
+        if judged[i][0] and "r" in r:
+            rep = blanks_repair(c["fmt"], c, r["r"], judged[i][0])
+            if rep is not None:
+                cand.append((i, rep))
+    if not cand:
+        return {}
+    rr = pool.pmap("impl.serialize", "impl_serialize", [[cases[i]["fmt"], cases[i]["ref"], rep, cases[i]["new"]] for i, rep in cand], timeout=5.0)
+    ok = {}
+    for (i, rep), r in zip(cand, rr):
+        c2 = dict(cases[i])
+        c2["old"] = rep
+        ok[i] = not oracle(c2, normalise(r))[0]
+    return ok
+
+
 def classify(v):
     return v.get("finding")
 
@@ -171,6 +273,8 @@ def resolve_new(cases):
     """raw values of the new data: unwrap() of the entity parsed from a one-entity localized file"""
     todo = {}
     for c in cases:
+        if c.get("raw_new"):
+            continue                     # the raw values are given literally (Fluent: the source of the entry)
         for k, src, x in c["new_src"]:
             if src is not None:
                 todo[(c["fmt"], k, src, x)] = None
@@ -189,6 +293,10 @@ def resolve_new(cases):
     for c in cases:
         new = []
         ok = True
+        if c.get("raw_new"):
+            c["new"] = [[k, src] for k, src, _ in c["new_src"]]
+            c["ok"] = True
+            continue
         for k, src, x in c["new_src"]:
             if src is None:
                 new.append([k, None])
@@ -201,6 +309,57 @@ def resolve_new(cases):
         c["new"] = new
         c["ok"] = ok
     return [c for c in cases if c["ok"]]
+
+
+def enc_opt(x):
+    return "None" if x is None else C.enc(x)
+
+
+def items_toks(new):
+    toks = [str(len(new))]
+    for k, v in new:
+        toks.append(C.enc(k))
+        toks.append(enc_opt(v))
+    return toks
+
+
+def ftl_line(c, v):
+    """c16.ftl: the texts plus the bodies fluent.syntax returned for them (input of the model of FluentParser.walk / wrap)"""
+    toks = ["c16.ftl"]
+    for text, body in ((c["ref"], v["ref_body"]), (c["old"], v["old_body"])):
+        toks += [C.enc(text), str(len(body))]
+        for k, s, e, ks, ke, vs, ve, cm in body:
+            toks += [k, str(s), str(e), str(ks), str(ke), str(vs), str(ve), enc_opt(cm)]
+    return " ".join(toks + items_toks(c["new"]))
+
+
+def arec_toks(rec):
+    if rec[0] == "A":
+        _, key, pre, all_, op, tag, children = rec
+        toks = ["A", C.enc(key), C.enc(pre), C.enc(all_), C.enc(op), C.enc(tag), str(len(children))]
+        for k, d, x in children:
+            toks += [k, C.enc(d), C.enc(x)]
+        return toks
+    return [rec[0]] + [C.enc(x) for x in rec[1:]]
+
+
+def android_line(c, ref_recs, old_recs):
+    """c16.android: the entries of the real AndroidParser.walk (input) — the model does wrap, sanitize, merge, prune"""
+    toks = ["c16.android", str(len(ref_recs))]
+    for r in ref_recs:
+        toks += arec_toks(r)
+    toks.append(str(len(old_recs)))
+    for r in old_recs:
+        toks += arec_toks(r)
+    return " ".join(toks + items_toks(c["new"]))
+
+
+def normalise(r):
+    """the android adapter reports an exception of serialize together with the walked entries"""
+    if "r" in r and isinstance(r["r"], dict) and "exc_inner" in r["r"]:
+        x = r["r"]
+        return {"exc": x["exc_inner"], "msg": x["msg"], "where": x["where"], "recs": [x["ref_recs"], x["old_recs"]]}
+    return r
 
 
 def model_line(c):
@@ -223,6 +382,17 @@ def gen_cases(ctx):
         rnd = [G.gen_random_case(rng, fmt) for _ in range(ctx.n(1500, 25000))]
         counts[fmt + ".random"] = len(rnd)
         cases += ex + rnd
+        # round 4: white-space (all of Unicode's and the format's own) at the ends of junk regions of the old file
+        jx = G.gen_junkws_exhaustive(fmt)
+        if ctx.tier == "quick":
+            jx = [c for i, c in enumerate(jx) if c["junkws"] != "exh" or i % 3 == ctx.seed % 3]
+        rngj = ctx.rng("c16.junkws", fmt)
+        jr = [G.gen_junkws_case(rngj, fmt) for _ in range(ctx.n(200, 6000))]
+        counts[fmt + ".junkws"] = len(jx) + len(jr)
+        cases += jx + jr
+        dd = G.gen_directed(fmt)
+        counts[fmt + ".directed"] = len(dd)
+        cases += dd
     return cases, counts
 
 
@@ -238,19 +408,32 @@ def run(ctx):
         out.count(k, v)
     cases = resolve_new(cases)
     args = [[c["fmt"], c["ref"], c["old"], c["new"]] for c in cases]
-    res = pool.pmap("impl.serialize", "impl_serialize", args, timeout=5.0)
-    idx_regex = [i for i, c in enumerate(cases) if c["fmt"] in G.REGEX_FORMATS]
-    lines = [model_line(cases[i]) for i in idx_regex]
+    res = [normalise(r) for r in pool.pmap("impl.serialize", "impl_serialize", args, timeout=5.0)]
+    idx_regex = []
+    lines = []
+    for i, (c, r) in enumerate(zip(cases, res)):
+        if c["fmt"] in G.REGEX_FORMATS:
+            idx_regex.append(i)
+            lines.append(model_line(c))
+        elif c["fmt"] == "ftl" and "r" in r:
+            idx_regex.append(i)
+            lines.append(ftl_line(c, r["r"]))
+        elif c["fmt"] == "android" and ("r" in r or "recs" in r):
+            idx_regex.append(i)
+            recs = r["recs"] if "recs" in r else (r["r"]["ref_recs"], r["r"]["old_recs"])
+            lines.append(android_line(c, recs[0], recs[1]))
     if ctx.model_ok:
         mres = C.run_driver_parallel(lines)
     else:
         mres = [None] * len(lines)
     model = dict(zip(idx_regex, mres))
     seen_findings = {}
+    judged = [oracle(c, r) for c, r in zip(cases, res)]
+    repaired_ok = repaired_pass(cases, res, judged)
     for i, (c, r) in enumerate(zip(cases, res)):
         out.evaluations += 1
         fmt = c["fmt"]
-        fails, expected = oracle(c, r)
+        fails, expected = judged[i]
         if "r" in r:
             canon = C.enc(r["r"]["out"])
             if expected:
@@ -261,7 +444,7 @@ def run(ctx):
         else:
             canon = "exc:" + str(r.get("exc"))
         if fails:
-            fid = finding_of(c, r, fails)
+            fid = finding_of(c, r, fails, expected, repaired_ok.get(i, False))
             out.count("%s.violations" % fmt)
             key = fid or "new"
             if seen_findings.get(key, 0) < 8:
@@ -269,8 +452,8 @@ def run(ctx):
                 out.violations.append({"what": "%s: %s" % (fmt, "; ".join(fails)),
                                        "input": {"fmt": fmt, "ref": c["ref"], "old": c["old"], "new": c["new"]},
                                        "output": r["r"]["out"] if "r" in r else None, "finding": fid})
-        elif i in model and model[i] is not None and model[i] != canon:
-            out.disagreements.append({"op": "ser", "fmt": fmt, "ref": c["ref"], "old": c["old"], "new": c["new"],
+        if i in model and model[i] is not None and model[i] != canon and (not fails or fmt in ("ftl", "android")):
+            out.disagreements.append({"op": {"ftl": "c16.ftl", "android": "c16.android"}.get(fmt, "ser"), "fmt": fmt, "ref": c["ref"], "old": c["old"], "new": c["new"],
                                       "impl": canon, "model": model[i]})
         if len(out.samples) < 12 and "r" in r and expected and len(expected) >= 2 and out.distribution.get("sampled." + fmt, 0) < 2 \
                 and "exh" not in c:
@@ -278,6 +461,7 @@ def run(ctx):
             out.samples.append({"fmt": fmt, "ref": c["ref"], "old": c["old"], "new": c["new"], "out": r["r"]["out"]})
     run_wild(ctx, out)
     run_entries(ctx, out)
+    run_wrap(ctx, out)
     run_probes(ctx, out)
     # unexplained violations first, then the findings round-robin (the replay file keeps the first 20)
     groups = {}
@@ -301,12 +485,70 @@ def run_probes(ctx, out):
         ("props.value_trailing_blank", "properties", "a=E\n", "", [["a", "N "]]),
         ("ini.section_key_clash", "ini", "[a]\na=E\n", "[a]\na=y\n", [["a", "N"]]),
         ("ini.other_section", "ini", "[S]\na=E\n", "[O]\na=y\n", []),
+        # round 4: sticky entries (Android DocumentWrapper)
+        ("android.root_attr_old_only", "android", AX % (' xmlns:a="urn:R"', '  <string name="k">E</string>\n'),
+         AX % (' xmlns:a="urn:O" xmlns:b="urn:B"', '  <string name="k">y</string>\n'), []),
+        ("android.sticky_key_clash", "android", AX % (' xmlns:a="urn:R"', '  <string name="k">E</string>\n'),
+         AX % ("", '  <string name="xmlns:a">y</string>\n'), [["k", "N"]]),
+        ("android.reference_markup", "android", AX % ("", '  <string name="k">Hello <b>E</b> tail</string>\n'), "", [["k", "N"]]),
+        ("props.value_newline", "properties", "a=E\n", "", [["a", "N\nb=X"]]),
+        ("props.value_leading_blank", "properties", "a=E\n", "", [["a", " N"]]),
+        ("dtd.quote_switch", "dtd", "<!ENTITY a \"E\">\n", "", [["a", "say \"x\""]]),
     ]
     res = pool.pmap("impl.serialize", "impl_serialize_text", [[f, r, o, n] for _, f, r, o, n in probes], timeout=5.0)
     for (tag, f, r, o, n), x in zip(probes, res):
         got = x.get("r", x.get("exc")) if isinstance(x, dict) else x
         out.count("probe.%s" % tag)
         out.notes.append("probe %s: serialize(%s, ref=%r, old=%r, new=%r) -> %r" % (tag, f, r, o, n, got))
+
+
+def run_wrap(ctx, out):
+    """AndroidEntity.wrap alone (c16.awrap: every class of child node, 0-4 children, raw values that need escaping or cannot be
+    written) and fluent.syntax's serialize_comment (c16.fcomment) — the two printer contracts the Fluent/Android models rely on"""
+    rng = ctx.rng("c16.wrap")
+    cases = [G.gen_wrap_case(rng) for _ in range(ctx.n(1000, 20000))]
+    res = pool.pmap("impl.serialize", "impl_android_wrap", [[c["text"], c["key"], c["raw"]] for c in cases], timeout=5.0)
+    lines, idx = [], []
+    for i, (c, r) in enumerate(zip(cases, res)):
+        if "r" in r and r["r"] is not None:
+            v = r["r"]
+            op, tag, children = v["el"]
+            toks = ["c16.awrap", C.enc(v["key"]), C.enc(v["pre"]), C.enc(op), C.enc(tag), str(len(children))]
+            for k, d, x in children:
+                toks += [k, C.enc(d), C.enc(x)]
+            lines.append(" ".join(toks + [C.enc(c["raw"])]))
+            idx.append(i)
+    out.count("awrap.cases", len(lines))
+    mres = C.run_driver_parallel(lines) if ctx.model_ok else [None] * len(lines)
+    for i, m in zip(idx, mres):
+        out.evaluations += 1
+        v = res[i]["r"]
+        canon = C.enc(v["all"]) if "all" in v else "exc:" + v["wexc"]
+        out.count("awrap." + ("exc." + v["wexc"] if "wexc" in v else "ok"))
+        if "all" in v:
+            out.nontrivial.add(("awrap", v["all"]))
+            if v["wkey"] != v["key"] or v["wraw"] != cases[i]["raw"]:
+                out.violations.append({"what": "android wrap: key/raw value of the wrapped entity differ from the request",
+                                       "input": cases[i], "op": "c16.awrap", "finding": None})
+        if m is not None and m != canon:
+            out.disagreements.append({"op": "c16.awrap", "input": cases[i], "impl": canon, "model": m})
+    contents = list(G.COMMENT_CONTENTS) + ["\n".join(rng.choice(["", "x", " y", "# z", "é"]) for _ in range(rng.randrange(1, 5)))
+                                           for _ in range(ctx.n(60, 600))]
+    res = pool.pmap("impl.serialize", "impl_ftl_comment", [[c] for c in contents], timeout=5.0)
+    mres = C.run_driver_parallel(["c16.fcomment " + C.enc(c) for c in contents]) if ctx.model_ok else [None] * len(contents)
+    for c, r, m in zip(contents, res, mres):
+        out.evaluations += 1
+        canon = C.enc(r["r"]) if "r" in r else "exc:" + str(r.get("exc"))
+        if m is not None and m != canon:
+            out.disagreements.append({"op": "c16.fcomment", "input": c, "impl": canon, "model": m})
+    # serialize lines 53-54: a file name no parser claims
+    names = ("a.txt", "strings.json", "")
+    for name, r in zip(names, pool.pmap("impl.serialize", "impl_unsupported", [[n] for n in names], timeout=5.0)):
+        out.evaluations += 1
+        got = r.get("r")
+        out.count("unsupported." + ("ok" if isinstance(got, str) and got.startswith("SerializationNotSupportedError") else "other"))
+        if not (isinstance(got, str) and got.startswith("SerializationNotSupportedError")):
+            out.notes.append("serialize(%r, [], [], {}) -> %r (expected SerializationNotSupportedError)" % (name, r))
 
 
 def run_wild(ctx, out):
@@ -374,6 +616,7 @@ def replay(payload):
             continue
         c = {"fmt": i["fmt"], "ref": i["ref"], "old": i["old"], "new": i["new"]}
         r = pool.pmap("impl.serialize", "impl_serialize", [[c["fmt"], c["ref"], c["old"], c["new"]]], timeout=10.0)[0]
+        r = normalise(r)
         fails, _ = oracle(c, r)
         res.append({"input": i, "output": r["r"]["out"] if "r" in r else r, "oracle": fails or None})
     return {"violates": any(r["oracle"] for r in res), "cases": res}
